@@ -1,0 +1,23 @@
+//go:build verif
+
+/*
+Copyright 2026 Codenotary Inc. All rights reserved.
+
+SPDX-License-Identifier: BUSL-1.1
+*/
+
+package store
+
+import "sort"
+
+// vLogIDs returns the ids of the value logs in ascending order: under
+// simulation every source of nondeterminism, Go's random map iteration order
+// included, has to be pinned so that one seed is one execution.
+func (s *ImmuStore) vLogIDs() []byte {
+	ids := make([]byte, 0, len(s.vLogs))
+	for i := range s.vLogs {
+		ids = append(ids, i)
+	}
+	sort.Slice(ids, func(a, b int) bool { return ids[a] < ids[b] })
+	return ids
+}
